@@ -516,7 +516,8 @@ PROPS = {
                        "overflow. Unit rdcompose (rdata/dnssec.rs): Dnskey::new and Ds::new accept exactly the data that fits RDLENGTH; "
                        "on accepted values rdlen() == number of octets compose_rdata() appends, the octets are the fields in wire "
                        "order, and compose_canonical_rdata() appends the same octets (these are the wire forms the C04 unit "
-                       "nsec3order orders by). Otherwise: bounded/complete contract checking with Kani of the compose/parse/rdlen quadruple on the compiled, "
+                       "nsec3order orders by); the same for Nsec3param with its length-prefixed salt (Nsec3Salt::{salt_len, "
+                       "compose_len, compose}). Otherwise: bounded/complete contract checking with Kani of the compose/parse/rdlen quadruple on the compiled, "
                        "macro-generated generic code, for the record types CBMC can handle: A and AAAA complete over all values; DS, "
                        "DNSKEY, TLSA, SSHFP, HINFO with small symbolic octet fields; MX and SRV with one fixed name (canonical "
                        "lower-casing). Verus unit rtypebitmap (rdata/dnssec.rs, real text): the type bitmap shared by NSEC, NSEC3 "
